@@ -204,8 +204,16 @@ func init() {
 			{Name: "hist", Build: "plain", Params: "mode=hist"},
 			{Name: "sched", Build: "instr", Params: "mode=sched"},
 			{Name: "race", Build: "race", Params: "mode=race", Shards: 1, Env: []string{"GOMAXPROCS=16"}},
+			// order probes: thousands of different applications built and run one after another in the same
+			// processes; a case that fails there but not alone is an order dependence
+			{Name: "probe-help", Build: "plain", Check: "help", Props: "C14", OrderProbe: true, Thorough: true},
+			{Name: "probe-values", Build: "plain", Check: "values", Props: "C06,C15", OrderProbe: true},
+			{Name: "probe-custom", Build: "plain", Check: "custom", Props: "C19", OrderProbe: true},
+			{Name: "probe-helptext", Build: "plain", Check: "helptext", Props: "C17", OrderProbe: true},
+			{Name: "probe-conv", Build: "plain", Check: "conv", Props: "C13", OrderProbe: true},
+			{Name: "probe-decl", Build: "plain", Check: "decl", Props: "C18", OrderProbe: true},
 		},
-		Rule: "(a) histories: every ordered sequence of <= 3 of 14 application templates (chosen to collide: same spec text with different declarations, same option names, the same environment variable read with different values, a rejection, a help request under ExitOnError, hooks with Exit, nested repetitions, implicit spec, two rejections caused by unconvertible values with other containers already collected) is built-and-run in one fresh process and every outcome compared with the template's outcome alone in a fresh process; (b) interleavings: the library sources are instrumented (overlay) with a scheduling point at every function entry, every loop head and before/after every statement mentioning a package-level variable; 2 (thorough: 3) templates run as cooperative threads; all schedules up to the preemption bound are enumerated depth-first (dense pass: every point; focused pass: tagged points only, higher bound), every execution on fresh objects; oracle per execution: each thread ends exactly as it does alone under the same instrumentation (result, bound values, exit codes and the text that thread itself wrote to the output stream), and no package-level variable is written by one thread and touched by another (conflict monitor); states = scheduling points visited, transitions = executions (schedules) run; traces validated = schedules executed on the real code (all of them); (c) the same bodies free-running in 16 goroutines under -race; non-trivial = executions with at least one preemption, histories of length >= 2",
+		Rule: "(a) histories: every ordered sequence of <= 3 of 14 application templates (chosen to collide: same spec text with different declarations, same option names, the same environment variable read with different values, a rejection, a help request under ExitOnError, hooks with Exit, nested repetitions, implicit spec, two rejections caused by unconvertible values with other containers already collected) is built-and-run in one fresh process and every outcome compared with the template's outcome alone in a fresh process; (b) interleavings: the library sources are instrumented (overlay) with a scheduling point at every function entry, every loop head and before/after every statement mentioning a package-level variable; 2 (thorough: 3) templates run as cooperative threads; all schedules up to the preemption bound are enumerated depth-first (dense pass: every point; focused pass: tagged points only, higher bound), every execution on fresh objects; oracle per execution: each thread ends exactly as it does alone under the same instrumentation (result, bound values, exit codes and the text that thread itself wrote to the output stream), and no package-level variable is written by one thread and touched by another (conflict monitor); states = scheduling points visited, transitions = executions (schedules) run; traces validated = schedules executed on the real code (all of them); (c) the same bodies free-running in 16 goroutines under -race; (d) order probes: the enumerations of C06/C15, C19, C17, C13 and C18 (thorough: also C14) (millions of different applications built and run one after another in 16 long-lived processes) are run once more, and a case that fails there but passes alone in a fresh process is reported as an order dependence; non-trivial = executions with at least one preemption, histories of length >= 2",
 		Assumptions: []string{"interleavings are explored at the granularity of the inserted scheduling points; Go memory-model effects below that granularity are left to the free-running -race pass, which is not exhaustive", "a report of the race detector is taken as proof (no confirmation replay)", "concurrent applications share the package-level output stream by design: outputs are compared in histories only"},
 	})
 }
